@@ -378,6 +378,7 @@ func (g *vfGen) genC03() {
 		in := small[g.rng.Intn(len(small))]
 		g.emit(vfOp("xwalk", sc, in, []uint32{0, 3072, 64}[g.rng.Intn(3)]))
 	}
+	g.genResExt()
 }
 
 func (g *vfGen) genC14() {
@@ -411,4 +412,16 @@ func (g *vfGen) genC14() {
 		g.emit(vfOp("xlookup", sc, []byte("no/such-type")))
 	}
 	g.emit(vfOp("xwalk", "~", []byte("plain"), 0))
+	// names are registered and looked up verbatim: upper case, parameters, surrounding blanks
+	for _, parent := range []string{"r", "0"} {
+		for _, nm := range []string{"text/x-Systemd-Unit", "Application/X-Upper", " text/x-lead", "text/x-trail ", "TEXT/X-ALLCAPS"} {
+			al := "application/X-Systemd-Alias"
+			sc := fmt.Sprintf("%s:prefix-%s:%s:%s:%s", parent, vfHex([]byte("[Unit]")), vfHex([]byte(nm)), vfHex([]byte(".unit")), vfHex([]byte(al)))
+			g.emit(vfOp("xlookup", sc, []byte(nm)))
+			g.emit(vfOp("xlookup", sc, []byte(al)))
+			g.emit(vfOp("xlookup", sc, []byte("text/x-systemd-unit")))
+			g.emit(vfOp("xwalk", sc, []byte("[Unit]\nDescription=x\n"), 0))
+		}
+	}
+	g.genResExt()
 }
